@@ -116,6 +116,7 @@ type Ctl struct {
 	PanicOnSub      bool
 	Hot             bool // emit with a context of the producer's own (hot source)
 	PanicOnTeardown bool
+	OnTeardown      func()           // runs inside the teardown (after the counter)
 	OnSub           func(cs *ctlSub) // runs inside the subscription, before the teardown is returned (a source that ends synchronously)
 }
 
@@ -144,6 +145,9 @@ func (c *Ctl) Observable(mode string, script []Step) ro.Observable[any] {
 			c.mu.Lock()
 			c.Torn++
 			c.mu.Unlock()
+			if c.OnTeardown != nil {
+				c.OnTeardown()
+			}
 			if c.PanicOnTeardown {
 				panic(errors.New("verif: this teardown panics"))
 			}
